@@ -24,8 +24,9 @@ PRESET_HYPER = {"H": 1, "F": 1, "Cl": 7, "Br": 7, "I": 7, "B": 3, "B+1": 2, "B-1
 
 @spec
 def table_ok(t):
-    # representation invariant of the table in force: a dict with a '?' entry
-    return typed(t, 'dict') and ("?" in t)
+    # representation invariant of the table in force: a dict with a '?' entry whose values are non-negative ints
+    return (typed(t, 'dict') and ("?" in t)
+            and all(implies(k in t, typed(t[k], 'int') and t[k] >= 0) for k in anyvalue()))
 
 
 @spec
@@ -64,6 +65,9 @@ def get_semantic_constraints():
 @contract("selfies/bond_constraints.py::set_semantic_constraints", props=["C12", "C11", "C06", "C07"])
 def set_semantic_constraints(bond_constraints: 'str|dict[str]|int|None|tuple'):
     requires(config_ok())
+    # assumption (stated in the evidence): capacities given as bool (True/False pass isinstance(value, int)) are not modelled
+    requires(implies(typed(bond_constraints, 'dict'),
+                     all(implies(k in bond_constraints, not typed(bond_constraints[k], 'bool')) for k in anyvalue())))
     modifies_global("_current_constraints")
     raises(ValueError)
     # atomic rejection: on every exceptional exit nothing observable changed
@@ -85,7 +89,9 @@ def set_semantic_constraints(bond_constraints: 'str|dict[str]|int|None|tuple'):
     ensures(implies(typed(bond_constraints, 'str'), bond_constraints in PRESET_NAMES), tag="C12:unknown-preset-rejected")
     ensures(config_ok(), tag="C11:memos-cleared-after-update")
     ensures(same_dict_state(old(_current_constraints)), tag="C12:old-table-object-untouched")
-    invariant("for key, value in bond_constraints.items()", True, tag="none-needed")
+    invariant("for key, value in bond_constraints.items()",
+              all(typed(bond_constraints[dict_key_at(bond_constraints, j)], 'int')
+                  and bond_constraints[dict_key_at(bond_constraints, j)] >= 0 for j in range(_k)), tag="values-seen-valid")
 
 
 @contract("selfies/bond_constraints.py::get_bonding_capacity", props=["C06", "C01", "C11"])
@@ -96,3 +102,4 @@ def get_bonding_capacity(element: str, charge: int):
             tag="C06:capacity-lookup")
     ensures(_current_constraints == old(_current_constraints) and same_dict_state(_current_constraints),
             tag="C11:lookup-no-effect")
+    ensures(typed(result, 'int') and result >= 0, tag="C01:capacity-nonnegative-int")
